@@ -348,7 +348,9 @@ def perform_zhit(
 
     num_smoothing: int = 5 if smoothing == "auto" else 1
     num_interpolation: int = 4 if interpolation == "auto" else 1
-    num_window: int = len(_WINDOW_FUNCTIONS) if window == "auto" else 1
+    num_window: int = (
+        len(_WINDOW_FUNCTIONS) if (window == "auto" and weights is None) else 1
+    )
 
     num_steps: int = 0
     # Generate weights
